@@ -4,6 +4,9 @@ decorators; names are prefixed x-stixmon- so they never collide with anything el
 from . import values as V
 
 _done = {}
+TOPLEVEL_A = "extension-definition--5b3b0b3c-0a4e-4f0f-9c57-0d7f7a1b2c03"
+TOPLEVEL_B = "extension-definition--5b3b0b3c-0a4e-4f0f-9c57-0d7f7a1b2c04"
+TOPLEVEL_UNREGISTERED = "extension-definition--5b3b0b3c-0a4e-4f0f-9c57-0d7f7a1b2cff"
 
 
 def ensure_registered():
@@ -40,6 +43,27 @@ def ensure_registered():
     class Ext21(object):
         pass
 
+    # a custom object / observable that declares itself through a new-object extension (extension_name=)
+    @stix2.v21.CustomObject("x-stixmon-gadget", [("name", P.StringProperty(required=True)), ("x_zed", P.StringProperty()), ("weight", P.IntegerProperty())],
+                            extension_name="extension-definition--5b3b0b3c-0a4e-4f0f-9c57-0d7f7a1b2c01")
+    class Gadget21(object):
+        pass
+
+    @stix2.v21.CustomObservable("x-stixmon-probe", [("address", P.StringProperty(required=True)), ("x_note", P.StringProperty())], id_contrib_props=["address", "extensions"],
+                                extension_name="extension-definition--5b3b0b3c-0a4e-4f0f-9c57-0d7f7a1b2c02")
+    class Probe21(object):
+        pass
+
+    # toplevel-property extensions: their properties sit at the top level of the extended object
+    @stix2.v21.CustomExtension(TOPLEVEL_A, [("rank", P.IntegerProperty()), ("seen_at", P.TimestampProperty()),
+                                            ("aliases", P.ListProperty(P.StringProperty))])
+    class TopA21(object):
+        extension_type = "toplevel-property-extension"
+
+    @stix2.v21.CustomExtension(TOPLEVEL_B, [("grade", P.IntegerProperty(min=0, max=10)), ("graded_by", P.StringProperty())])
+    class TopB21(object):
+        extension_type = "toplevel-property-extension"
+
     # an extension whose every property is optional with a default: written without its defaults it is an empty object
     @stix2.v21.CustomExtension("x-stixmon-flags-ext", [("verified", P.BooleanProperty(default=lambda: False)), ("rank", P.IntegerProperty(default=lambda: 0)),
                                                        ("remark", P.StringProperty())])
@@ -71,6 +95,7 @@ def ensure_registered():
         pass
 
     _done.update({
+        ("2.1", "toplevel-a"): TopA21, ("2.1", "toplevel-b"): TopB21, ("2.1", "gadget"): Gadget21, ("2.1", "probe"): Probe21,
         ("2.1", "stamp"): Stamp21, ("2.1", "object"): Widget21, ("2.1", "observable"): Sensor21, ("2.1", "observable-noid"): Anon21, ("2.1", "extension"): Ext21,
         ("2.1", "marking"): Marking21, ("2.0", "object"): Widget20, ("2.0", "observable"): Sensor20, ("2.0", "extension"): Ext20,
         ("2.0", "marking"): Marking20,
@@ -104,6 +129,32 @@ def widget(g, profile="random"):
             o["labels"] = ["l1", V.string(rng, g.hostile)]
         if g.version == "2.1" and rng.random() < 0.5:
             o["x_extra"] = V.string(rng, g.hostile)
+    return o
+
+
+def gadget21(g):
+    """JSON of the custom object declared with extension_name= (the extension entry is part of its JSON form)"""
+    rng = g.rng
+    o = {"type": "x-stixmon-gadget", "spec_version": "2.1", "id": g.new_id("x-stixmon-gadget"), "created": "2020-01-01T00:00:00.000Z",
+         "modified": "2020-01-01T00:00:00.000Z", "name": V.string(rng, g.hostile) or "g"}
+    if rng.random() < 0.7:
+        o["x_zed"] = V.string(rng, g.hostile)
+    if rng.random() < 0.5:
+        o["weight"] = V.integer(rng, 0, 1000)
+    if rng.random() < 0.7:
+        o["extensions"] = {"extension-definition--5b3b0b3c-0a4e-4f0f-9c57-0d7f7a1b2c01": {"extension_type": "new-sdo"}}
+    return o
+
+
+def probe21(g, with_id=False):
+    rng = g.rng
+    o = {"type": "x-stixmon-probe", "spec_version": "2.1", "address": V.string(rng, False) or "a"}
+    if with_id:
+        o["id"] = g.new_id("x-stixmon-probe")
+    if rng.random() < 0.6:
+        o["x_note"] = V.string(rng, g.hostile)
+    if rng.random() < 0.5:
+        o["extensions"] = {"extension-definition--5b3b0b3c-0a4e-4f0f-9c57-0d7f7a1b2c02": {"extension_type": "new-sco"}}
     return o
 
 
@@ -166,3 +217,29 @@ def observed20_with_sensor(g):
                      "1": {"type": "ipv4-addr", "value": "198.51.100.3"},
                      "2": {"type": "file", "name": "f", "extensions": {"x-stixmon-ext": {"level": 3}}}}
     return od
+
+
+def toplevel21(g, which="a"):
+    """JSON of an identity extended by registered toplevel-property extension(s): 'a', 'b', 'ab' (a first), 'ba', or 'u' (an unregistered one)"""
+    rng = g.rng
+    o = g.make("identity", "random", granular=False)
+    ext = dict(o.get("extensions", {}))
+    for w in which:
+        ext[{"a": TOPLEVEL_A, "b": TOPLEVEL_B, "u": TOPLEVEL_UNREGISTERED}[w]] = {"extension_type": "toplevel-property-extension"}
+        if w == "a":
+            if rng.random() < 0.8:
+                o["rank"] = V.integer(rng, 0, 1000)
+            if rng.random() < 0.6:
+                o["seen_at"] = g.ts_value({"precision": "any", "constraint": "exact"})
+            if rng.random() < 0.6:
+                o["aliases"] = [V.string(rng, False) or "al" for _ in range(rng.choice([1, 2]))]
+        elif w == "b":
+            o["grade"] = rng.randrange(0, 11)
+            if rng.random() < 0.5:
+                o["graded_by"] = V.string(rng, False) or "g"
+        else:
+            o["zone"] = rng.choice(["z", 5, ["a"], {"k": "v"}])
+            if rng.random() < 0.5:
+                o["area"] = rng.randrange(100)
+    o["extensions"] = ext
+    return o
